@@ -28,6 +28,7 @@ func checkC18(r *Report, p *Program) {
 	// the customize manager takes one subscription per related resource and remembers it (shared with C15)
 	relatedInformerMemo(r, p, "R18.8")
 	subscriptionHandles(r, p, "R18.9")
+	timerStopTable(r, p, "R18.10")
 }
 
 // lockDiscipline (A6): all accesses to the selected shared maps hold one common
@@ -703,12 +704,16 @@ func informerAcquireRelease(r *Report, p *Program, rule string) {
 							}
 							if E(containerRootExpr(container)) != "" {
 								for _, l := range engine.RangeLoops(dc) {
-									if l.Contains(cl.Instr.(ssa.Instruction)) && sameField(E(l.X), E(container)) {
+									if l.Contains(cl.Instr.(ssa.Instruction)) && sameField(E(l.X), E(container)) && sameLocalMap(dc, l.X, container) {
 										closers = append(closers, in)
 									}
 								}
 							}
 						} else if engine.DependsOnValue(recv, inf, nil) {
+							closers = append(closers, in)
+						}
+						// the informer itself, captured by the cleanup closure, closed there (whatever container it also sits in)
+						if engine.PointsInto(recv, inf) {
 							closers = append(closers, in)
 						}
 					}
@@ -1099,4 +1104,21 @@ func closureAlwaysCalls(mc *ssa.MakeClosure, v ssa.Value) bool {
 	}
 	// no return reachable without passing a call of v
 	return engine.Query{Fn: fn, CutInstr: calls, Target: func(in ssa.Instruction) bool { _, isR := in.(*ssa.Return); return isR }}.Find() == nil
+}
+
+// sameLocalMap: two expressions that render alike denote the same map — when both resolve to a make(map) they must
+// be the same one (two local maps of one type render identically).
+func sameLocalMap(inner *ssa.Function, a, b ssa.Value) bool {
+	ra, rb := engine.ResolveLocal(a), engine.ResolveLocal(b)
+	if fv, isFV := ra.(*ssa.FreeVar); isFV {
+		if bnd := engine.FreeVarBinding(fv); bnd != nil {
+			ra = engine.ResolveLocal(bnd)
+		}
+	}
+	ma, okA := ra.(*ssa.MakeMap)
+	mb, okB := rb.(*ssa.MakeMap)
+	if okA && okB {
+		return ma == mb
+	}
+	return true
 }
